@@ -502,6 +502,40 @@ def uninstall_cleanup() -> Tuple[bool, bool]:
     return has("port_protocol_mapping", "value.name == software_name"), has("_software_class_to_name_map", "value == software_name")
 
 
+def port_scan_delivery() -> str:
+    """what `receive_payload_from_session_manager` does with a PortScanPayload: 'nmap-if-installed' (handed to software["nmap"]
+    when there is one, dropped otherwise, then return) | 'nmap-unchecked' (dereferenced blindly) — anything else raises"""
+    fn = find_method(class_def(parse(SM), "SoftwareManager"), "receive_payload_from_session_manager")
+    b = body_no_doc(fn)
+    if not (b and isinstance(b[0], ast.If) and not b[0].orelse and
+            ast.unparse(b[0].test) == "payload.__class__.__name__ == 'PortScanPayload'"):
+        raise ValueError("receive_payload_from_session_manager: port-scan branch not first")
+    body = [ast.unparse(x) for x in b[0].body if not is_log(x)]
+    call = "receive(payload=payload, session_id=session_id)"
+    if body == ["nmap = self.software.get('nmap')", f"if nmap:\n    nmap.{call}", "return"]:
+        return "nmap-if-installed"
+    if body == [f"self.software.get('nmap').{call}", "return"]:
+        return "nmap-unchecked"
+    raise ValueError(f"receive_payload_from_session_manager: unrecognised port-scan branch {body}")
+
+
+def ctor_loads_fixing_countdown() -> bool:
+    """`Software.__init__` sets `_fixing_countdown = config.fixing_duration` when the configured starting health is FIXING"""
+    fn = find_method(class_def(parse(SW), "Software"), "__init__")
+    want = ["super().__init__(**kwargs)", "self.health_state_actual = self.config.starting_health_state"]
+    b = [x for x in body_no_doc(fn)]
+    if [ast.unparse(x) for x in b[:2]] != want:
+        raise ValueError("Software.__init__: unrecognised shape")
+    rest = b[2:]
+    if not rest:
+        return False
+    if len(rest) == 1 and isinstance(rest[0], ast.If) and not rest[0].orelse and \
+            ast.unparse(rest[0].test) == "self.health_state_actual == SoftwareHealthState.FIXING and self._fixing_countdown is None" and \
+            [ast.unparse(x) for x in rest[0].body] == ["self._fixing_countdown = self.config.fixing_duration"]:
+        return True
+    raise ValueError("Software.__init__: unrecognised statements after the health assignment")
+
+
 def install_order() -> List[str]:
     """the registry writes of SoftwareManager.install in source order"""
     fn = find_method(class_def(parse(SM), "SoftwareManager"), "install")
@@ -651,6 +685,10 @@ def emit() -> str:
     L.append("/-- `uninstall` pops the first port-table entry owned by the uninstalled name / the first class-map entry naming it -/")
     L.append(f"def uninstallPopsPortEntryOfOwner : Bool := {str(pm_ok).lower()}")
     L.append(f"def uninstallPopsClassMapEntry : Bool := {str(cm_ok).lower()}")
+    L.append("/-- what `receive_payload_from_session_manager` does with a PortScanPayload -/")
+    L.append(f'def portScanDelivery : String := "{port_scan_delivery()}"')
+    L.append("/-- `Software.__init__` loads `_fixing_countdown` from `config.fixing_duration` for software configured FIXING -/")
+    L.append(f"def ctorLoadsFixingCountdown : Bool := {str(ctor_loads_fixing_countdown()).lower()}")
     L.append("/-- registry writes of `SoftwareManager.install` in source order -/")
     L.append("def installOrder : List String := [" + ", ".join(f'"{w}"' for w in install_order()) + "]")
     L.append(f"def openPortsFromRunningPortMapOwners : Bool := {str(open_ports_shape()).lower()}")
